@@ -5,7 +5,7 @@ from cfgdrive import Sim, c11_flags, options
 import drive_C10
 from drive_C10 import casevar, COMMA_ELEMS, LINE_ELEMS, STRINGS, FLOATS, SCALAR_POOL, LIST_POOL, PORT_GROUPS
 
-PRED_NAMES = ['emptied_list_saved', 'edit_while_detached']
+PRED_NAMES = ['emptied_list_saved', 'edit_while_detached', 'odd_element_saved']
 TOR_LINES = [e for e in LINE_ELEMS if e[0] not in '"\'']
 TOR_STRINGS = [e for e in STRINGS if e[0] not in '"\'']
 PORT_LINES = ['9050', '9150 IsolateDestAddr', '127.0.0.1:9999', 'unix:/run/tor/socks', 'localhost:9052',
@@ -45,7 +45,7 @@ class P(drive_C10.P):
 
     def kind(self, case, obs):
         f = c11_flags(case)
-        tag = 'clean' if not any(f) else '+'.join(n for n, x in zip(('C10-F1', 'F5'), f) if x)
+        tag = 'clean' if not any(f) else '+'.join(n for n, x in zip(('C10-F1', 'F5', 'C10-F4'), f) if x)
         return '%s/%s' % (tag, 'defaults' if case['defaults'] is not None else 'no-defaults')
 
     finding_preds = dict((n, (lambda i: (lambda c, o: c11_flags(c)[i]))(i)) for i, n in enumerate(PRED_NAMES))
@@ -55,6 +55,8 @@ class P(drive_C10.P):
 
     def _elem(self, rng, k):
         if k == 'KPorts' or self._socks_name:
+            if rng.random() < 0.08:
+                return rng.choice([['i', 0], ['i', 9050], ['s', '']])
             return ['s', rng.choice(PORT_LINES)]
         return drive_C10.P._elem(self, rng, k)
 
@@ -202,7 +204,7 @@ class P(drive_C10.P):
                     continue
             else:
                 # the class of C10 that needs no event is C10's business
-                if s2.f1:
+                if s2.f1 or s2.f4:
                     continue
             sim = s2
             ops.append(op)
@@ -215,7 +217,7 @@ class P(drive_C10.P):
             table = self._table11(rng)
             store, defaults = self._store11(rng, table, clean)
             ops = self._history11(rng, table, store, defaults, clean, rng.choice([1, 2, 3, 4, 6, 6, 9, 14]))
-            out.append({'table': table, 'store': store, 'defaults': defaults, 'ops': ops})
+            out.append({'table': table, 'store': store, 'defaults': defaults, 'ops': ops, 'pre': self._pre(rng, table)})
         return out
 
     def exhaustive(self, tier):
@@ -270,7 +272,8 @@ class P(drive_C10.P):
                             store['__' + g] = dunder
                         ops = [['read', g.lower()], ['socks'], ['event', ev], ['read', g.upper()], ['socks'],
                                ['listop', g, 'append', ['s', '7777']], ['needs_save'], ['save', None], ['read', g], ['socks']]
-                        out.append({'table': ptable, 'store': store, 'defaults': None if dfl is None else [[g, d] for d in dfl], 'ops': ops})
+                        pre = [[g, ['l', [['i', 9050], ['s', '1337']]]], ['NumCPUs', ['b', True]]] if (dfl is None or len(dunder) == 1) else None
+                        out.append({'table': ptable, 'store': store, 'defaults': None if dfl is None else [[g, d] for d in dfl], 'ops': ops, 'pre': pre})
         return out, ('every declared type x initial value shape x defaults mode x event shape, each followed by read-edit-save; '
                      'port lists: Tor\'s value (unset / auto / one / many) x config/defaults (unsupported / none / one / two lines) '
                      'x __<X> (none / one / two) x event shape, with socks_endpoint() and read-edit-save')
